@@ -18,13 +18,14 @@ pub fn pad_banks(inv: &Inv, pads: &BTreeMap<(usize, usize), Vec<i16>>, chunk_siz
 }
 /// As `pad_banks`, but every packet carries its own header metadata (trigger timestamp a few ticks apart or unrelated,
 /// delay, source, counters, threshold mask, SCA cell) and its chunks their own sequence numbers: none of it may matter.
-pub fn pad_banks_varied(inv: &Inv, pads: &BTreeMap<(usize, usize), Vec<i16>>, chunk_size: usize, rng: &mut crate::core::Rng) -> Vec<(String, Vec<u8>)> {
+pub fn pad_banks_varied(inv: &Inv, pads: &BTreeMap<(usize, usize), Vec<i16>>, chunk_size: usize, rng: &mut crate::core::Rng, spread_sel: Option<usize>) -> Vec<(String, Vec<u8>)> {
     let mut groups: BTreeMap<(String, u8), Vec<(u16, Vec<i16>)>> = BTreeMap::new();
     let mut meta: BTreeMap<(String, u8), ([u8; 6], u32)> = BTreeMap::new();
     for ((c, r), s) in pads { let (name, mac, dev, chip, ro) = &inv.pad[*c][*r]; groups.entry((name.clone(), *chip)).or_default().push((*ro, s.clone())); meta.insert((name.clone(), *chip), (*mac, *dev)); }
     let mut out = Vec::new();
     let t0 = rng.next() & 0xFFFF_FFFF_FFFF;
-    let spread = *rng.pick(&[0u64, 1, 4, 5, 8, 9, 1000, u64::MAX]);
+    const SPREADS: [u64; 8] = [8, 0, 4, 1, 9, 1000, 5, u64::MAX];
+    let spread = match spread_sel { Some(k) => SPREADS[k % 8], None => *rng.pick(&SPREADS) };
     for (k, ((name, chip), mut chans)) in groups.into_iter().enumerate() { chans.sort_by_key(|c| c.0); let (mac, dev) = meta[&(name.clone(), chip)]; let n = chans[0].1.len() as u16;
         let mut p = Pwb::new(['A', 'B', 'C', 'D'][chip as usize], mac, n, chans);
         p.trigger_timestamp = if spread == u64::MAX { rng.next() & 0xFFFF_FFFF_FFFF } else { (t0 + spread / 2 * (k as u64 % 3)) & 0xFFFF_FFFF_FFFF };
